@@ -53,7 +53,7 @@ theorem remove_rem (env : Env) (p : Policy) (h : RHost) :
   unfold Policy.remove; rw [fbRemove_rem]; cases env.tokenAware <;> rfl
 
 theorem mem_all (p : Policy) (x : RHost) : x ∈ p.all ↔ x ∈ p.ta ∨ x ∈ p.loc ∨ x ∈ p.rem := by
-  simp [Policy.all, List.mem_append, or_assoc]
+  simp [Policy.all, List.mem_append]
 
 theorem mem_cowAdd_sub (l : List RHost) (h x : RHost) (hx : x ∈ cowAdd l h) : x ∈ l ∨ x = h := by
   rcases (mem_cowAdd l h x).mp hx with h1 | h1
